@@ -191,5 +191,33 @@ class SimSubprocess(object):
                         self.fs.clock.now)
         return p
 
+    # -- convenience functions of the subprocess module, all through Popen ----------
+    def call(self, command, *args, **kwargs):
+        p = self.Popen(command)
+        p.communicate()
+        return p.returncode
+
+    def check_call(self, command, *args, **kwargs):
+        rc = self.call(command)
+        if rc:
+            raise self.CalledProcessError(rc, command)
+        return 0
+
+    def check_output(self, command, *args, **kwargs):
+        self.check_call(command)
+        return b""
+
+    def run(self, command, *args, **kwargs):
+        p = self.Popen(command)
+        out, err = p.communicate()
+        if kwargs.get("check") and p.returncode:
+            raise self.CalledProcessError(p.returncode, command)
+
+        class Completed(object):
+            pass
+        c = Completed()
+        c.args, c.returncode, c.stdout, c.stderr = command, p.returncode, out, err
+        return c
+
     def __getattr__(self, name):
         raise UnmodelledSyscall("subprocess.%s" % name)
